@@ -279,6 +279,39 @@ def dotCharsLegacy : List Seg → List Char
 
 def dotPathLegacy (p : List Seg) : String := String.ofList (dotCharsLegacy p)
 
+/-! ### ToDotPath after pending/C19-dotpath-escape.diff: a quoted key is a string literal
+    (`quotedKeyEscaper`: `\` → `\\`, `"` → `\"`), and the empty key is quoted too
+    (`case v == "" || needsBracketNotation(v)`). -/
+
+/-- `quotedKeyEscaper.Replace` on one character -/
+def escChar (c : Char) : List Char :=
+  if c = '"' ∨ c = '\\' then ['\\', c] else [c]
+
+def escChars : List Char → List Char
+  | [] => []
+  | c :: r => escChar c ++ escChars r
+
+/-- the key is written between `["` and `"]` -/
+def quotedKey (s : String) : Bool := s.toList.isEmpty || needsBracket s
+
+/-- one segment of the patched utils.ToDotPath (`first` = it is segment 0) -/
+def segDotEsc (first : Bool) : Seg → List Char
+  | .idx n => '[' :: (toString n).toList ++ [']']
+  | .key s =>
+    if quotedKey s then '[' :: '"' :: escChars s.toList ++ ['"', ']']
+    else if first then s.toList
+    else '.' :: s.toList
+
+def dotRestEsc : List Seg → List Char
+  | [] => []
+  | s :: r => segDotEsc false s ++ dotRestEsc r
+
+def dotCharsEsc : List Seg → List Char
+  | [] => []
+  | s :: r => segDotEsc true s ++ dotRestEsc r
+
+def dotPathEsc (p : List Seg) : String := String.ofList (dotCharsEsc p)
+
 /-- one "path: message" segment of PrettifyErrorWithFormatter -/
 def prettySeg (i : Issue) : String :=
   match i.path with
